@@ -204,6 +204,14 @@ def run_case(case, seed):
             ref = ref_conv(dd.reshape([B, ci] + m), ff.reshape([co, ci] + n), m, n, mode, s, B, ci, co).reshape(oshape)
             if list(y.shape) != oshape or not np.abs(y - ref).max() <= TOL * max(1, np.abs(ref).max()):
                 V("definition", "conv.convolve", "dense arguments: result differs from the definition (imaginary part dropped or conjugated?)")
+            # bilinear => homogeneous in each argument at any scale (no absolute thresholds on "small" taps or samples)
+            for sd, sf in ((1e-9, 1.0), (1.0, 1e-9), (1e9, 1e-9), (1e-12, 1e-12)):
+                ys = sp.convolve((sd * dd).astype(ddt), (sf * ff).astype(fdt), **kw)
+                trans += 1
+                if list(ys.shape) != oshape or not np.abs(ys - sd * sf * ref).max() <= 1e-9 * sd * sf * max(1, np.abs(ref).max()):
+                    V("definition", "conv.convolve", "data scaled by %g and filter by %g: result is not %g times the unit-scale result "
+                      "(absolute threshold on small values?)" % (sd, sf, sd * sf))
+                    break
         except Exception:
             outcome = "rejected-dense"  # e.g. real data x complex filter refused loudly
     # ---- adjoints (requested shapes; conjugate transposes)
